@@ -167,6 +167,13 @@ func (e *Engine) valueToJSON(x *sexp, t types.Type, elems func(reg, off, n int64
 		}
 		return out, true
 	}
+	if isErrorType(t) {
+		v, ok := intOf(x)
+		if !ok {
+			return nil, false
+		}
+		return map[string]interface{}{"err": v != "0"}, true
+	}
 	switch u := t.Underlying().(type) {
 	case *types.Basic:
 		switch {
@@ -265,10 +272,17 @@ func binOf(a string) string {
 
 // ---- generic replay ------------------------------------------------------------
 
+func isErrorType(t types.Type) bool {
+	return types.Identical(types.Unalias(t), types.Universe.Lookup("error").Type())
+}
+
 func replayable(t types.Type, depth int) bool {
 	t = types.Unalias(t)
 	if depth > 5 {
 		return false
+	}
+	if isErrorType(t) {
+		return true
 	}
 	switch u := t.Underlying().(type) {
 	case *types.Basic:
@@ -362,6 +376,34 @@ func replayGeneric(e *Engine, opt Options, id string, g *Group) (ReplayResult, b
 			}
 		}
 	}
+	if r1.Status != "sat" {
+		// prefer a model whose slice elements are values of their Go type
+		// (heap cells not read by the code are otherwise unconstrained)
+		var rng []string
+		e.bv = ri.bv
+		for _, w := range ri.params {
+			if sl, ok := w.Ty.Underlying().(*types.Slice); ok {
+				c, _ := e.elemComp(sl.Elem())
+				h := quoteSym(strings.Trim(c, "|") + "@0")
+				if !strings.Contains(base, h) {
+					continue
+				}
+				qv := quoteSym("q$e")
+				if r := e.rangeOf(fmt.Sprintf("(select (select %s (sl_reg %s)) %s)", h, w.Term, qv), sl.Elem()); r != "true" {
+					rng = append(rng, fmt.Sprintf("(assert (forall ((%s Int)) %s))", qv, r))
+					rng = append(rng, fmt.Sprintf("(assert (<= (sl_len %s) 64))", w.Term))
+				}
+			}
+		}
+		if len(rng) > 0 {
+			rb := strings.Replace(base, "(check-sat)", strings.Join(rng, "\n")+"\n(check-sat)", 1)
+			q0 := rb + "\n(get-value (" + strings.Join(terms, " ") + "))\n"
+			r1 = Solve(q0, e.TimeoutMs, "")
+			if r1.Status == "sat" {
+				base = rb
+			}
+		}
+	}
 	q1 := base + "\n(get-value (" + strings.Join(terms, " ") + "))\n"
 	if r1.Status != "sat" {
 		r1 = Solve(q1, e.TimeoutMs, o.Result.Backend)
@@ -384,7 +426,8 @@ func replayGeneric(e *Engine, opt Options, id string, g *Group) (ReplayResult, b
 		}
 	}
 	e.bv = ri.bv
-	elems := func(reg, off, n int64, et types.Type) ([]interface{}, bool) {
+	var elems func(reg, off, n int64, et types.Type) ([]interface{}, bool)
+	elems = func(reg, off, n int64, et types.Type) ([]interface{}, bool) {
 		if n == 0 {
 			return []interface{}{}, true
 		}
@@ -409,7 +452,7 @@ func replayGeneric(e *Engine, opt Options, id string, g *Group) (ReplayResult, b
 		}
 		var out []interface{}
 		for _, x := range ev.list {
-			v, ok := e.valueToJSON(x.list[1], et, nil)
+			v, ok := e.valueToJSON(x.list[1], et, elems)
 			if !ok {
 				return nil, false
 			}
@@ -610,6 +653,10 @@ func verifFill(v reflect.Value, j interface{}) {
 			verifFill(s.Index(i), es[i])
 		}
 		v.Set(s)
+	case reflect.Interface:
+		if m, ok := j.(map[string]interface{}); ok && m["err"] == true {
+			v.Set(reflect.ValueOf(fmt.Errorf("error from the model")))
+		}
 	default:
 		panic("verifFill: unsupported kind " + v.Kind().String())
 	}
@@ -648,6 +695,10 @@ func verifTree(v reflect.Value) interface{} {
 			es = append(es, verifTree(v.Index(i)))
 		}
 		return map[string]interface{}{"elems": es}
+	case reflect.Interface:
+		if _, ok := v.Interface().(error); ok || v.IsNil() {
+			return map[string]interface{}{"err": !v.IsNil()}
+		}
 	}
 	return "?"
 }
